@@ -375,10 +375,42 @@ def replay(ctx, obj):
             return
 
 
+def kernel_sweeps(ctx):
+    """regenerated kernels on their full tie grids: angular_difference (S1) and the >= comparison (C18.exceed)"""
+    import scores.functions as F
+    from scores.processing.discretise import comparative_discretise
+    angles = [Fraction(45 * k, 2) for k in range(-20, 37)]                 # -450 .. 810 in 22.5-degree steps: differences hit 0, 180, 360, 540
+    base = [Fraction(0), Fraction(45, 2), Fraction(180), Fraction(725, 2)]
+    for a in base:
+        for b in angles:
+            gen = core.dec_num(ctx.model("k_angular_difference", enc_list([enc_num(a), enc_num(b)])))
+            impl = float(F.angular_difference(xr.DataArray([float(a)]), xr.DataArray([float(b)])).values[0])
+            d = abs(a - b) % 360
+            spec = d if d <= 180 else 360 - d
+            ctx.case(("kang", a, b))
+            if not core.close(impl, spec):
+                ctx.violation("angular_difference differs from min(|a-b| mod 360, 360 - |a-b| mod 360)", {"a": a, "b": b}, spec, impl)
+            if not core.close(impl, gen):
+                ctx.tie_fail("gen_angular_difference vs implementation", {"a": a, "b": b}, impl, str(gen))
+    grid = [NAN] + [float(Fraction(k, 2)) for k in range(-3, 4)]
+    for x in grid:
+        for t in grid:
+            gen = core.dec_num(ctx.model("c18_k_exceed", enc_list([enc_num(x), enc_num(t)])))
+            impl = float(comparative_discretise(xr.DataArray([x]), float(t), ">=").values[0])
+            spec = NAN if (np.isnan(x) or np.isnan(t)) else (1.0 if x >= t else 0.0)
+            ctx.case(("kexc", x, t))
+            if not core.close(impl, spec):
+                ctx.violation("comparative_discretise(>=) differs from 1{x >= t} with NaN preserved", {"x": x, "t": t}, spec, impl)
+            if not core.close(impl, gen):
+                ctx.tie_fail("gen_c18_exceed vs implementation", {"x": x, "t": t}, impl, str(gen))
+    ctx.count("kernel_grid_points", 4 * len(angles) + len(grid) ** 2)
+
+
 def run(ctx):
     ff = S()
     rng = ctx.rng
     known_cases(ctx, ff)
+    kernel_sweeps(ctx)
     # exhaustive small angle sets on a 45-degree grid: every multiset of 1..4 directions (ties between gaps, 180 gaps)
     grid = [45.0 * k for k in range(8)]
     import itertools
